@@ -27,6 +27,9 @@ const (
 	EffGo       = "nondet.goroutine"
 	EffGlobalW  = "global.write"
 	EffSetAcct  = "auth.setaccount"
+	// a time.Time carrying the PROCESS-LOCAL zone (time.Unix and friends return one): its calendar arithmetic (AddDate, Date,
+	// Truncate to days ...) and its text (String, Format) differ between hosts with different zone settings
+	EffZone = "nondet.localzone"
 )
 
 // ArgOrderDecl: a wiring fact about a call whose arguments are string constants (module names in the module manager's
@@ -70,6 +73,8 @@ func libEffects(name string) []string {
 		return []string{EffSetAcct}
 	case n == "time.Now", n == "time.Since", n == "time.Until":
 		return []string{EffTime}
+	case n == "time.Unix", n == "time.UnixMilli", n == "time.UnixMicro", n == "(time.Time).Local", n == "time.LoadLocation":
+		return []string{EffZone}
 	case strings.HasPrefix(n, "math/rand."), strings.HasPrefix(n, "(*math/rand.Rand)."), strings.HasPrefix(n, "crypto/rand."):
 		return []string{EffRand}
 	}
@@ -142,6 +147,51 @@ func timeOnlyToTelemetry(v ssa.Value) bool {
 	return true
 }
 
+// zoneIndependentUses: every use of the local-zone time value v is a call of a time.Time method whose result does not depend
+// on the zone (conversion to UTC, the instant as a number, comparisons of instants).
+func zoneIndependentUses(v ssa.Value) bool {
+	refs := v.Referrers()
+	if refs == nil {
+		return false
+	}
+	ok := map[string]bool{"UTC": true, "Unix": true, "UnixNano": true, "UnixMilli": true, "UnixMicro": true, "Before": true, "After": true,
+		"Equal": true, "Sub": true, "IsZero": true, "Compare": true}
+	for _, r := range *refs {
+		switch u := r.(type) {
+		case *ssa.DebugRef:
+			continue
+		case ssa.CallInstruction:
+			c := u.Common()
+			f := c.StaticCallee()
+			if f == nil || f.Signature.Recv() == nil || len(c.Args) == 0 || c.Args[0] != v || !strings.HasPrefix(f.String(), "(time.Time).") || !ok[f.Name()] {
+				return false
+			}
+		default:
+			return false
+		}
+	}
+	return true
+}
+
+// exemptLibEffects: the two use-based exemptions (wall-clock reads that only feed telemetry; local-zone times whose every use
+// is zone independent).
+func exemptLibEffects(effs []string, in ssa.Instruction) ([]string, string) {
+	if len(effs) != 1 {
+		return effs, ""
+	}
+	val, isVal := in.(ssa.Value)
+	if !isVal {
+		return effs, ""
+	}
+	if effs[0] == EffTime && timeOnlyToTelemetry(val) {
+		return nil, "(->telemetry only)"
+	}
+	if effs[0] == EffZone && zoneIndependentUses(val) {
+		return nil, "(->zone-independent uses only)"
+	}
+	return effs, ""
+}
+
 func (ec *effectChecker) checkFunction(fn *ssa.Function, top *ssa.Function, ord map[string]int) {
 	decl, key := ec.declaredOf(top)
 	allowed := effectSet(decl)
@@ -212,13 +262,9 @@ func (ec *effectChecker) checkFunction(fn *ssa.Function, top *ssa.Function, ord 
 				} else if inRepo(f) {
 					continue // closure called directly: its body is checked as part of the parent
 				} else {
-					effs = libEffects(what)
-					if len(effs) == 1 && effs[0] == EffTime {
-						if val, isVal := in.(ssa.Value); isVal && timeOnlyToTelemetry(val) {
-							effs = nil
-							what += "(->telemetry only)"
-						}
-					}
+					var tag string
+					effs, tag = exemptLibEffects(libEffects(what), in)
+					what += tag
 				}
 			} else {
 				// call through a function value: closures of this function are checked in place; others unknown
@@ -411,12 +457,7 @@ func cmdEffectsInfer(p *Program) {
 							}
 						}
 					} else if !inRepo(f) {
-						es := libEffects(f.String())
-						if len(es) == 1 && es[0] == EffTime {
-							if val, isVal := in.(ssa.Value); isVal && timeOnlyToTelemetry(val) {
-								es = nil
-							}
-						}
+						es, _ := exemptLibEffects(libEffects(f.String()), in)
 						add(es)
 					}
 				}
